@@ -47,13 +47,14 @@ func init() {
 
 // File states (the fault kinds of S9).
 const (
-	StFile     = "file"               // regular file with Content
-	StAbsent   = "absent"             // ENOENT at stat
-	StDir      = "directory"          // path is a directory
-	StDangling = "dangling-link"      // symlink to nothing
-	StProcMem  = "stat-ok-read-fails" // /proc/self/mem: stat succeeds, read returns EIO
-	StLinkOK   = "symlink"            // symlink to a regular file with Content
-	StFifo     = "fifo"               // named pipe fed with Content by the harness (what `-p <(cmd)` gives): readable, not a regular file
+	StFile     = "file"                       // regular file with Content
+	StAbsent   = "absent"                     // ENOENT at stat
+	StDir      = "directory"                  // path is a directory
+	StDangling = "dangling-link"              // symlink to nothing
+	StProcMem  = "stat-ok-read-fails"         // /proc/self/mem: stat succeeds, read returns EIO
+	StLinkOK   = "symlink"                    // symlink to a regular file with Content
+	StLinkRel  = "relative-symlink-in-subdir" // sub/<name> -> "real.json" (relative target) next to sub/real.json with Content; a decoy real.json with another patch sits in the working directory
+	StFifo     = "fifo"                       // named pipe fed with Content by the harness (what `-p <(cmd)` gives): readable, not a regular file
 )
 
 type File struct {
@@ -66,6 +67,8 @@ type File struct {
 type Arg struct {
 	File     int `json:"file"`
 	Spelling int `json:"spelling"` // 0 "-p f", 1 "-pf", 2 "--patch-file f", 3 "--patch-file=f"
+	// PathStyle: how the path is written: 0 "f", 1 "./f", 2 "d/../f" (d an existing directory), 3 absolute
+	PathStyle int `json:"path_style,omitempty"`
 }
 
 // Scen is one replayable execution of the command.
@@ -122,7 +125,7 @@ func fold(s *Scen) (e Expected) {
 		}
 		f := s.Files[a.File]
 		switch f.State {
-		case StFile, StLinkOK, StFifo:
+		case StFile, StLinkOK, StFifo, StLinkRel:
 		default:
 			return Expected{Why: fmt.Sprintf("argument %d: file state %s", i, f.State)}
 		}
@@ -179,6 +182,15 @@ func Exec(s *Scen, binDir, dir string) (*Observed, error) {
 			os.Symlink(p+".real", p)
 		case StProcMem:
 			os.Symlink("/proc/self/mem", p)
+		case StLinkRel:
+			sub := filepath.Join(dir, "sub-"+f.Name)
+			os.MkdirAll(sub, 0o755)
+			if err := os.WriteFile(filepath.Join(sub, "real.json"), f.Content, 0o644); err != nil {
+				return nil, err
+			}
+			os.Symlink("real.json", filepath.Join(sub, f.Name))
+			// decoy: what a resolution of the link target against the working directory would find
+			os.WriteFile(filepath.Join(dir, "real.json"), []byte(`[{"op":"add","path":"/decoy","value":true}]`), 0o644)
 		case StFifo:
 			if err := syscall.Mkfifo(p, 0o644); err != nil {
 				return nil, err
@@ -209,8 +221,20 @@ func Exec(s *Scen, binDir, dir string) (*Observed, error) {
 		feeders.Wait()
 	}()
 	var argv []string
+	os.MkdirAll(filepath.Join(dir, "d"), 0o755)
 	for _, a := range s.Args {
 		name := s.Files[a.File].Name
+		if s.Files[a.File].State == StLinkRel {
+			name = "sub-" + name + "/" + name
+		}
+		switch a.PathStyle {
+		case 1:
+			name = "./" + name
+		case 2:
+			name = "d/../" + name
+		case 3:
+			name = filepath.Join(dir, name)
+		}
 		switch a.Spelling {
 		case 1:
 			argv = append(argv, "-p"+name)
@@ -354,7 +378,7 @@ func describeArgs(s *Scen) string {
 	for _, a := range s.Args {
 		f := s.Files[a.File]
 		d := f.State
-		if f.State == StFile || f.State == StLinkOK || f.State == StFifo {
+		if f.State == StFile || f.State == StLinkOK || f.State == StFifo || f.State == StLinkRel {
 			d += ":" + f.Note
 		}
 		parts = append(parts, fmt.Sprintf("%s[%s]", f.Name, d))
@@ -436,6 +460,25 @@ func Enumerate() []*Scen {
 					s.Args = append(s.Args, Arg{File: i, Spelling: i % 4})
 				}
 				out = append(out, s)
+			}
+		}
+		for n := 1; n <= 3; n++ {
+			for pos := 0; pos < n; pos++ {
+				s := &Scen{Target: target, Stdin: sim.Bytes(chainDoc), Note: fmt.Sprintf("enumeration: symlink with a relative target in a sub-directory at position %d of %d", pos, n)}
+				for i := 0; i < n; i++ {
+					st := StFile
+					if i == pos {
+						st = StLinkRel
+					}
+					s.Files = append(s.Files, File{Name: fmt.Sprintf("p%d.json", i), State: st, Content: sim.Bytes(chainPatch(i)), Note: "valid"})
+					s.Args = append(s.Args, Arg{File: i, Spelling: i % 4, PathStyle: (i + pos) % 4})
+				}
+				out = append(out, s)
+			}
+		}
+		for style := 0; style < 4; style++ {
+			for sp := 0; sp < 4; sp++ {
+				out = append(out, &Scen{Target: target, Stdin: sim.Bytes(chainDoc), Note: "enumeration: path styles", Files: []File{{Name: "p.json", State: StFile, Content: sim.Bytes(chainPatch(0)), Note: "valid"}, {Name: "q.json", State: StLinkOK, Content: sim.Bytes(chainPatch(1)), Note: "valid"}}, Args: []Arg{{File: 0, Spelling: sp, PathStyle: style}, {File: 1, Spelling: (sp + 1) % 4, PathStyle: (style + 1) % 4}}})
 			}
 		}
 		out = append(out, &Scen{Target: target, Stdin: sim.Bytes(chainDoc), Note: "enumeration: malformed patch through a named pipe", Files: []File{{Name: "p.json", State: StFifo, Content: sim.Bytes(`[{"op":`), Note: "torn"}}, Args: []Arg{{File: 0}}})
@@ -558,6 +601,8 @@ func Gen(seed uint64) *Scen {
 				f.State = StLinkOK
 			} else if r.P(80) {
 				f.State = StFifo
+			} else if r.P(80) {
+				f.State = StLinkRel
 			}
 		case x < 70:
 			f = faultFile(name, r.Intn(numFaultKinds), chainPatch(step))
@@ -573,7 +618,11 @@ func Gen(seed uint64) *Scen {
 		s.Files = append(s.Files, f)
 	}
 	for i := range s.Files {
-		s.Args = append(s.Args, Arg{File: i, Spelling: r.Intn(4)})
+		a := Arg{File: i, Spelling: r.Intn(4)}
+		if r.P(300) {
+			a.PathStyle = r.Intn(4)
+		}
+		s.Args = append(s.Args, a)
 	}
 	// shuffle / duplicate arguments so that command-line order differs from file numbering
 	if len(s.Args) > 1 && r.P(400) {
@@ -649,6 +698,13 @@ func shrink(s *Scen, sigWanted, binDir, dir string, deadline time.Time) *Scen {
 			}
 		}
 		for i := range best.Args {
+			if best.Args[i].PathStyle != 0 {
+				c := best.Clone()
+				c.Args[i].PathStyle = 0
+				if try(c) {
+					progress = true
+				}
+			}
 			if best.Args[i].Spelling != 0 {
 				c := best.Clone()
 				c.Args[i].Spelling = 0
@@ -725,7 +781,7 @@ func RunWorker(p sim.Params) *sim.Summary {
 		for _, a := range s.Args {
 			f := s.Files[a.File]
 			k := "patch_file_" + f.State
-			if f.State == StFile || f.State == StLinkOK || f.State == StFifo {
+			if f.State == StFile || f.State == StLinkOK || f.State == StFifo || f.State == StLinkRel {
 				k += ":" + f.Note
 			}
 			sum.Faults[k]++
@@ -802,7 +858,7 @@ func RunWorker(p sim.Params) *sim.Summary {
 		sum.Enum["fault_and_order_enumeration"]++
 	}
 	if done {
-		sum.Exhaustive = []string{fmt.Sprintf("every fault kind (%d) x every position in -p lists of length 1..3 with all other patches valid, every permutation of three chained and of three overwriting patches, no/duplicate/symlinked arguments, 8 stdin variants, stdin delivered in 1/2/n writes, a named pipe as patch file at every position - for both binaries (%d executions)", numFaultKinds, len(enum))}
+		sum.Exhaustive = []string{fmt.Sprintf("every fault kind (%d) x every position in -p lists of length 1..3 with all other patches valid, every permutation of three chained and of three overwriting patches, no/duplicate/symlinked arguments, 8 stdin variants, stdin delivered in 1/2/n writes, a named pipe and a relative symlink in a sub-directory as patch file at every position, 4 path styles x 4 flag spellings - for both binaries (%d executions)", numFaultKinds, len(enum))}
 	}
 	// 2. seeded random scenarios
 	for i := int64(0); i < p.MaxRuns && time.Now().Before(p.Deadline); i++ {
